@@ -290,7 +290,8 @@ class MonteCarloNoise:
             op = copy.deepcopy(op)
             is_controlled = False
             if isinstance(op, ops.OneQubitGateWrapper):
-                op_type_seq = [type(gate) for gate in op.unwrap()]
+                # noise[i] belongs to operations[i] (the listed order, which unwrap() reverses)
+                op_type_seq = list(op.operations)
                 noise_list = self._find_wrapped_noise(op_type_seq, op.reg_type)
                 op.noise = noise_list
                 noisy_ops.append(op)
